@@ -130,6 +130,8 @@ def run(ctx):
     # through the parser, inside every statement form (a subset: parsing costs ~50 ms)
     sub = [b for b in vals if len(b) <= 2][:: max(1, len(vals) // (60 if q else 600))] + [b for b in vals if len(b) > 2][: 60 if q else 800]
     sub += [b'\\"', b'"', b"\\", b"\\\\", b'";', b"';#", b"\n", b"}{", b"\\x41", b'a" ; set jitter "9', b"\xff\x00"]
+    # long values: 16 K .. 70 K bytes (a literal has no length limit; \xff is four characters once escaped)
+    sub += [b"\xff" * 16383, b"\xff" * 16384, b"\xff" * 20000, rng.randbytes(30000), b'"' * 40000, b"a" * 70000, b"\\" * 33000]
     # values whose bytes look like the layout of a statement (blank before ';', braces with blanks around them ...)
     sub += [b"a ;b", b" ;", b"; ", b" ; ", b"x { y", b"} ;", b"{ }", b"a  ;  b", b" ;;", b"set x \"y\" ;"]
     for b in sub:
